@@ -288,10 +288,20 @@ def scrip_dataset(m, rng, force=None):
     lon = _lon(lon, d["lon"])
     clon = np.zeros((m.n_face, w))
     clat = np.zeros((m.n_face, w))
+    d.setdefault("pole_lon", _pick(rng, ["zero", "neighbour", "neighbour"]))
     for i, f in enumerate(m.faces):
         ff = list(f) + [f[-1]] * (w - len(f))
         clon[i] = lon[ff]
         clat[i] = np.array(lat)[ff]
+        if d["pole_lon"] == "neighbour":
+            # a corner exactly at a pole has no longitude of its own: SCRIP writers (regular grids, polar caps) give it the longitude
+            # of the neighbouring corner of the cell, so the same pole appears with different longitudes in different cells
+            for j in range(len(f)):
+                if abs(clat[i, j]) == 90.0:
+                    clon[i, j:] = np.where(np.arange(j, w) < len(f), clon[i, j:], clon[i, j:])
+                    clon[i, j] = clon[i, (j + 1) % len(f)] if abs(clat[i, (j + 1) % len(f)]) != 90.0 else clon[i, j - 1]
+            for j in range(len(f), w):  # keep the padding a repeat of the last corner
+                clon[i, j] = clon[i, len(f) - 1]
     C = face_centres(m)
     cl, ca = ref.xyz_to_lonlat(C)
     areas = np.array([ref.poly_area_fan(m.ring_pos(i)) for i in range(m.n_face)])
